@@ -7,6 +7,7 @@ import random
 import front_gen as fg
 import front_mut as fm
 import frontside as fs
+import lexstage
 from vlib import Broken
 
 LEVEL = "proof"
@@ -222,6 +223,34 @@ def catalogue_cases():
             f["zl.bitproto"] = inner
             add(f, code, used, f"definition of an importing file used in an imported file as {use}, import depth {depth}",
                 file="zl.bitproto")
+    # --- round 2: resolution depends on where / after what a name is used (every variant once,
+    #     in the root file and in an imported file)
+    for fam, fn in sorted(fg.SCENARIOS.items()):
+        variants = {"dotted_reuse": ["escape", "escape_deep", "twin", "outer_later"],
+                    "cross_kind": ["type_by_field", "type_by_outer_field", "const_by_nested", "const_by_field",
+                                   "const_option_by_nested", "type_not_hidden_by_enum_member"],
+                    "popped_by_member": ["one_level", "two_level", "two_level_deep", "const_by_enum_member", "import_by_field"],
+                    "twin_short_names": ["nested", "import"]}[fam]
+        for v in variants:
+            for in_import in (False, True):
+                rng = random.Random(f"catalogue:{fam}:{v}")
+                files, _top, info = fn(rng, v)
+                key = "rootp.bitproto"
+                if in_import and len(files) == 1:
+                    files = {"rootp.bitproto": [["proto", None, "rootp"], ["import", None, None, "zscen.bitproto"]],
+                             "zscen.bitproto": [["proto", None, "zscen"]] + files["rootp.bitproto"][1:]}
+                    key = "zscen.bitproto"
+                elif in_import:
+                    continue
+                code, node = info["expect"]
+                add(files, code, node, f"{fam} / {v}" + (" in an imported file" if in_import else ""), file=key)
+    # capacities as quotients of operands beyond 2^53 (exact integer division), at the limit
+    for n, ok in ((65535, True), (65536, False), (1, True), (0, False)):
+        for sh in (56, 64):
+            d = 1 << sh
+            c = ["const", None, "BIGN", ["expr", ["div", ["int", (n + 1) * d - 1], ["int", d]]]]
+            al = ["alias", None, "Tt", A(["bool"], ["BIGN"])]
+            add(P(c, al), 0 if ok else 3, None if ok else al, f"capacity {n} as ((n+1)*2^{sh}-1) / 2^{sh}")
     add({"rootp.bitproto": [M("Mm")]}, 31, None, "missing proto statement")
     f = P(["import", None, None, "zl.bitproto"]); f["zl.bitproto"] = [M("Kk")]
     add(f, 31, None, "missing proto statement in an imported file", file="zl.bitproto")
@@ -405,6 +434,7 @@ def run(ck):
         if "obs" in r:
             cov["samples"].append({"texts": c.texts, "origin": c.origin,
                                    "observed": {k: r["obs"].get(k) for k in ("code", "cls", "file", "line")}})
+    lexstage.lex_stage(ck, "C08_lex.v", 1, 8, "C08")    # text level: the tokenizer (tools/lexstage.py)
     # the parser itself (token list -> reductions): LALR tables validated, driver modelled (tools/lrstage.py)
     import lrstage
     lrstage.lr_stage(ck, "C08_lr.v", lrstage.QUICK, lrstage.THOROUGH, "lr")
